@@ -47,7 +47,7 @@ def layers(prop, tier):
             jobs.append({'prop': prop, 'gen': {'gen': 'univ', 'K': Kw, 'order': 'rev'}, 'meas': meas, 't': t,
                          'op': '>=', 'pres': pres})
             jobs.append({'prop': prop, 'gen': {'gen': 'univ', 'K': Kw - 1, 'order': 'rev'}, 'meas': meas, 't': t,
-                         'op': '>=', 'pres': 4 + (len(jobs) % 2), 'n_jobs': 2})
+                         'op': '>=', 'pres': 4 + (len(jobs) % 3), 'n_jobs': 2})
             for kr in (Kw - 2, Kw + 1):
                 jobs.append({'prop': prop, 'gen': {'gen': 'univ', 'K': Kw, 'Kr': kr},
                              'meas': meas, 't': t, 'op': '>=', 'pres': pres})
@@ -140,7 +140,7 @@ def layers(prop, tier):
                              'meas': meas, 't': t, 'op': '>=', 'tok': spec, 'pres': pres})
     for meas in SET_MEASURES + ('OVERLAP',):      # non-ASCII token spellings and str columns, whatever the seed
         for t in ((1, 3) if meas == 'OVERLAP' else (0.25, 0.5, 0.8)):
-            for p_ in (2, 5):
+            for p_ in (2, 5, 6):
                 jobs.append({'prop': prop, 'gen': {'gen': 'univ', 'K': 5}, 'meas': meas, 't': t, 'op': '>=',
                              'pres': p_, 'n_jobs': 2})
     Ls.append(Layer('tokenizers', 'checks.setjoin:w_tables', jobs,
